@@ -157,3 +157,137 @@ Proof.
   - eapply I3. exact Hsel.
   - eapply good_singular; eassumption.
 Qed.
+
+(* ---- way 1: the constructor ---- *)
+Definition cur_loop : nat -> list fdesc -> list pv -> list (option nat) -> list (option nat) :=
+  fix go (j : nat) (fs : list fdesc) (raw : list pv) (cur : list (option nat)) : list (option nat) :=
+    match fs, raw with
+    | f :: fs', v :: raw' =>
+        let cur' := match fgroup f with
+                    | Some g => if is_sentinel f v then cur else set_nth g (Some j) cur
+                    | None => cur
+                    end in
+        go (Datatypes.S j) fs' raw' cur'
+    | _, _ => cur
+    end.
+
+Lemma post_init_cur sc c raw :
+  ocur (post_init sc c raw) =
+  cur_loop 0 (cfields (get_class sc c)) raw (repeat None (cngroups (get_class sc c))).
+Proof. reflexivity. Qed.
+
+Lemma cur_loop_cons j f fs v raw cur :
+  cur_loop j (f :: fs) (v :: raw) cur =
+  cur_loop (S j) fs raw (match fgroup f with
+                         | Some g => if is_sentinel f v then cur else set_nth g (Some j) cur
+                         | None => cur
+                         end).
+Proof. reflexivity. Qed.
+
+Lemma cur_loop_keep g : forall fs raw j cur,
+  (forall k f x, nth_error fs k = Some f -> nth_error raw k = Some x -> fgroup f = Some g -> is_sentinel f x = true) ->
+  nth g (cur_loop j fs raw cur) None = nth g cur None.
+Proof.
+  induction fs as [|f fs IH]; intros raw j cur H; [reflexivity|].
+  destruct raw as [|v raw]; [reflexivity|]. rewrite cur_loop_cons.
+  rewrite IH by (intros k f' x Hk Hx; apply (H (S k) f' x Hk Hx)).
+  destruct (fgroup f) as [g'|] eqn:G; [|reflexivity].
+  destruct (is_sentinel f v) eqn:Sv; [reflexivity|].
+  destruct (Nat.eq_dec g' g) as [->|Ne]; [|apply nth_set_nth_neq; exact Ne].
+  rewrite (H O f v eq_refl eq_refl G) in Sv. discriminate.
+Qed.
+
+Lemma cur_loop_last g : forall fs raw j cur i f x,
+  nth_error fs i = Some f -> nth_error raw i = Some x -> fgroup f = Some g -> is_sentinel f x = false ->
+  (forall k f' x', (i < k)%nat -> nth_error fs k = Some f' -> nth_error raw k = Some x' ->
+                   fgroup f' = Some g -> is_sentinel f' x' = true) ->
+  (g < length cur)%nat ->
+  nth g (cur_loop j fs raw cur) None = Some (j + i)%nat.
+Proof.
+  induction fs as [|f0 fs IH]; intros raw j cur i f x Hf Hx G Sx Hlater Hg; [destruct i; discriminate|].
+  destruct raw as [|v raw]; [destruct i; discriminate|]. rewrite cur_loop_cons.
+  destruct i as [|i].
+  - cbn in Hf, Hx. injection Hf as <-. injection Hx as <-. rewrite G, Sx.
+    rewrite cur_loop_keep.
+    + rewrite Nat.add_0_r. apply nth_set_nth_eq. exact Hg.
+    + intros k f' x' Hk Hx' G'. apply (Hlater (S k) f' x'); [lia|exact Hk|exact Hx'|exact G'].
+  - cbn in Hf, Hx. replace (j + S i)%nat with (S j + i)%nat by lia.
+    eapply IH; try eassumption.
+    + intros k f' x' Lt Hk Hx' G'. apply (Hlater (S k) f' x'); [lia|exact Hk|exact Hx'|exact G'].
+    + destruct (fgroup f0); [|exact Hg]. destruct (is_sentinel f0 v); [exact Hg|]. rewrite set_nth_length. exact Hg.
+Qed.
+
+Lemma construct_raw_length sc c kw :
+  length (oraw (construct sc c kw)) = length (cfields (get_class sc c)).
+Proof.
+  unfold construct, post_init. cbn [oraw].
+  assert (H : forall r, length (fold_left (fun r '(i, v) => set_nth i (if fieldless sc v then mark_sow v else v) r) kw r) = length r).
+  { induction kw as [|[i v] kw IH]; intros r; [reflexivity|]. cbn [fold_left]. rewrite IH. apply set_nth_length. }
+  rewrite H. unfold new. cbn [oraw]. apply map_length.
+Qed.
+
+Lemma value_not_sentinel f x : is_value x -> is_sentinel f x = false.
+Proof. intros [A B]. destruct x; try reflexivity; congruence. Qed.
+
+(* whatever keyword arguments were given: if the attribute of an explicit-presence field ended up holding a
+   value and (for a oneof member) no later member of its group was given too, the field is emitted *)
+Theorem emit_after_construct sc c kw i f :
+  wf_schema sc = true ->
+  nth_error (cfields (get_class sc c)) i = Some f -> explicit_field f ->
+  let o := construct sc c kw in
+  is_value (raw_at o i) -> singular_value (raw_at o i) ->
+  (forall g, fgroup f = Some g ->
+     forall k f', (i < k)%nat -> nth_error (cfields (get_class sc c)) k = Some f' -> fgroup f' = Some g ->
+                  is_sentinel f' (raw_at o k) = true) ->
+  emitted_in sc o i f /\ (forall g, fgroup f = Some g -> which_one_of o g = Some i).
+Proof.
+  intros W Hf He o Hv Hs Hlater.
+  pose proof (wf_field_of sc c f W (nth_error_In _ _ Hf)) as Wf.
+  pose proof (construct_raw_length sc c kw) as Hl. fold o in Hl.
+  assert (Hcls : ocls o = c) by reflexivity.
+  assert (Hsel : forall g, fgroup f = Some g -> nth g (ocur o) None = Some i).
+  { intros g G. unfold o, construct. rewrite post_init_cur.
+    set (raw := fold_left _ kw _) in *.
+    assert (Er : oraw o = raw) by reflexivity.
+    replace i with (0 + i)%nat at 2 by reflexivity.
+    eapply cur_loop_last; try eassumption.
+    - unfold raw_at in Hv. rewrite Er in Hv.
+      apply (nth_error_of_nth raw i PPlaceholder). rewrite <- Er, Hl. eapply nth_error_lt. exact Hf.
+    - apply value_not_sentinel. unfold raw_at in Hv. rewrite Er in Hv. exact Hv.
+    - intros k f' x' Lt Hk Hx' G'. specialize (Hlater g G k f' Lt Hk G').
+      unfold raw_at in Hlater. rewrite Er in Hlater. rewrite (nth_error_nth _ _ _ Hx') in Hlater. exact Hlater.
+    - rewrite repeat_length. eapply wf_group_lt; eassumption. }
+  split; [|intros g G; apply Hsel; exact G].
+  eapply emit_explicit_state.
+  - exact Wf.
+  - unfold fields_of. rewrite Hcls. exact Hf.
+  - unfold fields_of. rewrite Hcls. exact Hl.
+  - eapply explicit_field_singular; eassumption.
+  - destruct He as [Ho|(g & G)]; [left; exact Ho|right].
+    unfold group_selects. rewrite G, (Hsel g G). cbn. rewrite Nat.eqb_refl. reflexivity.
+  - exact Hv.
+  - exact Hs.
+Qed.
+
+(* ---- K12: assignment through lazily created intermediates ---- *)
+Definition k12_schema : schema :=
+  mkS (builtin_classes ++
+       [mkC [mkF [x78] 1 TInt32 None None None false (HPlain PyInt) 0;
+             mkF [x72; x65; x63] 3 TMessage None None None false (HPlain (PyMsg 11)) 0] 0]) [].
+
+(* m = Inner(); m.rec.rec.x = v *)
+Definition k12_after (v : Z) : result obj := assign_path k12_schema (new k12_schema 11) [1%nat; 1%nat] 0 (PInt v).
+
+(* serialized_on_wire(m.rec.rec) is True, yet bytes(m) is empty: nothing tells the intermediates *)
+Lemma lazy_path_default_witness :
+  wf_schema k12_schema = true /\
+  exists m leaf, k12_after 0 = Ok m /\ descend k12_schema m [1%nat; 1%nat] = Ok leaf /\
+                 osow leaf = true /\ enc_obj k12_schema m = Ok [].
+Proof. split; [vm_compute; reflexivity|]. vm_compute. do 2 eexists. repeat split. Qed.
+
+(* with a non-default value the intermediate m.rec IS emitted although serialized_on_wire(m.rec) is False *)
+Lemma lazy_path_nondefault_witness :
+  exists m child, k12_after 5 = Ok m /\ descend k12_schema m [1%nat] = Ok child /\
+                  osow child = false /\ child_on_wire m 1 = false /\
+                  enc_obj k12_schema m = Ok [x1a; x04; x1a; x02; x08; x05].
+Proof. vm_compute. do 2 eexists. repeat split. Qed.
